@@ -175,6 +175,25 @@ def grey_relations(ao, rng, quick):
                     bad.append(("subaps:active-set:threshold-equal-to-a-cell-fill:grey-mask", dict(M=M, S=S, kind=kind, threshold=float(t),
                                                                                                     selected=int(len(sel)), expected=int(len(want)))))
                     return bad, n
+    # rectangular masks (cropped / elliptical pupils), both sides multiples of the sub-aperture count: the cells are the S x S grid of
+    # (Mx/S) x (My/S) blocks, selected by their mean, coordinates (x * Mx/S, y * My/S)
+    for (Mx, My, S) in ((12, 8, 4), (8, 12, 4), (6, 12, 3), (10, 4, 2), (9, 6, 3)):
+        yy, xx = np.indices((Mx, My))
+        for kind in range(2):
+            mask = (((xx - Mx / 2.0 + 0.5) / (Mx / 2.0)) ** 2 + ((yy - My / 2.0 + 0.5) / (My / 2.0)) ** 2 <= 1.0).astype(float) if kind == 0 else \
+                ((xx * 7 + yy * 3) % 5 < 3).astype(float)
+            bx, by = Mx // S, My // S
+            means = mask.reshape(S, bx, S, by).mean(axis=(1, 3))
+            for th in (0.0, 0.25, 0.5, 0.75, 1.0):
+                coords, fills = wfslib.findActiveSubaps(S, mask.copy(), th, returnFill=True)
+                coords, fills = np.asarray(coords, float).reshape(-1, 2), np.asarray(fills, float)
+                want = [(i, j) for i in range(S) for j in range(S) if means[i, j] >= th]
+                wc = np.array([[i * bx, j * by] for i, j in want], float).reshape(-1, 2)
+                wf = np.array([means[i, j] for i, j in want])
+                n += 1
+                if coords.shape != wc.shape or not np.array_equal(coords, wc) or not np.array_equal(fills, wf):
+                    bad.append(("subaps:active-set:rectangular-mask", dict(shape=[Mx, My], S=S, threshold=th, selected=int(len(coords)), expected=int(len(wc)))))
+                    return bad, n
     return bad, n
 
 
